@@ -4,11 +4,17 @@ use serde_json::Value;
 
 pub mod c01;
 pub mod c06;
+pub mod c07;
+pub mod c08;
+pub mod c15;
 
 pub fn run(ctx: &Ctx, acc: &mut Acc) -> bool {
     match ctx.prop.as_str() {
         "C01" => c01::run(ctx, acc),
         "C06" => c06::run(ctx, acc),
+        "C07" => c07::run(ctx, acc),
+        "C08" => c08::run(ctx, acc),
+        "C15" => c15::run(ctx, acc),
         _ => return false,
     }
     true
@@ -17,7 +23,7 @@ pub fn run(ctx: &Ctx, acc: &mut Acc) -> bool {
 /// Build profiles a property is explored under.
 pub fn profiles(id: &str) -> Vec<String> {
     let both = ["C03", "C04", "C12", "C15"];
-    let known = ["C01", "C06"];
+    let known = ["C01", "C06", "C07", "C08"];
     if both.contains(&id) {
         vec!["opt".into(), "chk".into()]
     } else if known.contains(&id) {
@@ -36,6 +42,9 @@ pub fn replay(id: &str, v: &Value) -> Option<(bool, String)> {
     match id {
         "C01" => c01::replay(v),
         "C06" => c06::replay(v),
+        "C07" => c07::replay(v),
+        "C08" => c08::replay(v),
+        "C15" => c15::replay(v),
         _ => None,
     }
 }
@@ -44,6 +53,9 @@ pub fn rule(id: &str) -> &'static str {
     match id {
         "C01" => c01::RULE,
         "C06" => c06::RULE,
+        "C07" => c07::RULE,
+        "C08" => c08::RULE,
+        "C15" => c15::RULE,
         _ => "",
     }
 }
@@ -51,6 +63,9 @@ pub fn bounds(id: &str, quick: bool) -> Value {
     match id {
         "C01" => c01::bounds(quick),
         "C06" => c06::bounds(quick),
+        "C07" => c07::bounds(quick),
+        "C08" => c08::bounds(quick),
+        "C15" => c15::bounds(quick),
         _ => Value::Null,
     }
 }
@@ -62,9 +77,19 @@ pub fn assumptions(id: &str) -> Vec<&'static str> {
     v.extend(match id {
         "C01" => c01::ASSUMPTIONS,
         "C06" => c06::ASSUMPTIONS,
+        "C07" => c07::ASSUMPTIONS,
+        "C08" => c08::ASSUMPTIONS,
+        "C15" => c15::ASSUMPTIONS,
         _ => &[],
     });
     v
+}
+
+/// parent-side checks over the merged results (cross-process comparisons)
+pub fn post_merge(id: &str, acc: &mut Acc) {
+    if id == "C08" {
+        c08::post_merge(acc)
+    }
 }
 
 pub fn selftest() -> i32 {
